@@ -224,6 +224,66 @@ pub async fn run_expiry(idle_timeout_ms: u64, gap_ms: u64, tls_first: bool) -> V
     problems
 }
 
+const RULE04: &str = "public Client builder with_pool(max_idle_per_host in {0, 1, 32}) / ConnectionPoolService directly: k HTTP/2 requests issued while the first dial is held at a gate (every one of them has been polled before the gate opens), then the gate opens: exactly one dial, every request answered; then one more request: no further dial when the pool may keep the connection (max_idle_per_host > 0)";
+
+/// C04 through the builder: a burst of HTTP/2 requests while the first connection attempt is certainly in flight
+pub async fn run_burst(max_idle: usize, k: usize, tls_first: bool) -> Vec<(String, String)> {
+    let log = Arc::new(Log::default());
+    let gates = Gates::default();
+    let routes = Routes { log: log.clone(), dial_gate: Some((gates.clone(), "dial".to_string())), ..Default::default() };
+    let server = spawn_server(ServerSpec { id: 0, proto: Proto::H2, net: Net::Duplex(16_384), tls: None, graceful: false, sni_validation: false }, log.clone(), gates.clone()).await;
+    routes.add("a.test", server.target.clone());
+    let mut p = hyperdriver::client::PoolConfig::default();
+    p.max_idle_per_host = max_idle;
+    BUILDER_TLS_BEFORE_BODY.with(|c| c.set(tls_first));
+    let client = build_client(routes.clone(), Some(p), None, None);
+    BUILDER_TLS_BEFORE_BODY.with(|c| c.set(false));
+    let mut problems = Vec::new();
+    let req = |id: u64| Request::builder().method("GET").uri(format!("http://a.test/r/{id}/x")).version(http::Version::HTTP_2).header("x-id", id).header("x-len", 0u64).body(ChunkBody::default()).unwrap();
+    let mut handles = Vec::new();
+    for j in 0..k {
+        let c = client.clone();
+        let r = req(400 + j as u64);
+        handles.push(tokio::spawn(async move {
+            let resp = c.oneshot(r).await.map_err(|e| format!("{e:?}"))?;
+            let _ = resp.into_body().collect().await;
+            Ok::<(), String>(())
+        }));
+    }
+    // every request has been polled (and is waiting) before the first dial is allowed to complete
+    for _ in 0..3 {
+        tokio::time::sleep(Duration::from_millis(5)).await;
+    }
+    gates.open("dial");
+    for (j, h) in handles.into_iter().enumerate() {
+        match tokio::time::timeout(Duration::from_secs(3600), h).await {
+            Ok(Ok(Ok(()))) => {}
+            other => problems.push(("client-api:burst-request-failed".to_string(), format!("request {j}: {:?}", other.map(|r| r.map_err(|e| e.to_string()))))),
+        }
+    }
+    let dials = log.dials.lock().unwrap().len();
+    if dials != 1 {
+        problems.push(("client-api:h2-burst-dialed-more-than-once".to_string(), format!("with_pool(max_idle_per_host = {max_idle}): {k} HTTP/2 requests issued while the first connection attempt was in flight caused {dials} dials")));
+    }
+    if max_idle > 0 {
+        for _ in 0..3 {
+            tokio::time::sleep(Duration::from_millis(5)).await;
+        }
+        let _ = tokio::time::timeout(Duration::from_secs(3600), async {
+            if let Ok(resp) = client.clone().oneshot(req(499)).await {
+                let _ = resp.into_body().collect().await;
+            }
+        })
+        .await;
+        let dials2 = log.dials.lock().unwrap().len();
+        if dials2 != dials {
+            problems.push(("client-api:h2-dialed-again-although-a-connection-is-pooled".to_string(), format!("with_pool(max_idle_per_host = {max_idle}): a request after the burst caused {} more dial(s)", dials2 - dials)));
+        }
+    }
+    server.join.abort();
+    problems
+}
+
 pub fn run(args: &Args) -> Report {
     let mut rep = Report::new("clientapi");
     let replay: Option<Value> = args.replay.as_ref().map(|p| serde_json::from_str::<Value>(&std::fs::read_to_string(p).unwrap()).unwrap()["replay"].clone());
@@ -252,6 +312,36 @@ pub fn run(args: &Args) -> Report {
             }
             if p.samples.len() < 3 {
                 p.sample(json!({"script": script, "pool": pool, "verdict": "every request resolved Ok"}));
+            }
+        });
+        rep.merge(part);
+    }
+    if args.wants("C04") {
+        let mut cases: Vec<(usize, usize, bool)> = Vec::new();
+        for max_idle in [0usize, 1, 32] {
+            for k in [2usize, 5, 24] {
+                for tls_first in [false, true] {
+                    cases.push((max_idle, k, tls_first));
+                }
+            }
+        }
+        if let Some(r) = &replay {
+            cases.retain(|(m, k, f)| r["max_idle"] == *m && r["burst"] == *k && r["tls_first"] == *f);
+        }
+        let cr = &cases;
+        let part = crate::report::parallel(args.threads, cases.len() as u64, "clientapi", |i, r| {
+            let (m, k, f) = cr[i as usize];
+            let rt = tokio::runtime::Builder::new_current_thread().enable_all().start_paused(true).build().unwrap();
+            let problems = rt.block_on(run_burst(m, k, f));
+            let p = r.prop("C04", RULE04);
+            let replay = json!({"engine": "clientapi", "max_idle": m, "burst": k, "tls_first": f});
+            p.eval(Some(hash_of(&format!("{replay}"))));
+            p.count("client_api_h2_bursts", 1);
+            for (sig, msg) in problems {
+                p.violation(sig, format!("{msg} | {replay}"), replay.clone());
+            }
+            if p.samples.len() < 3 {
+                p.sample(json!({"max_idle_per_host": m, "burst": k, "verdict": "one dial, every request answered"}));
             }
         });
         rep.merge(part);
